@@ -194,6 +194,11 @@ def _domain(view, it, stmt):
             if flip:
                 kind = 'present' if kind == 'missing' else 'missing'
             return e.value.id, kind, U(col.slice), idx_false
+    if isinstance(e, ast.Call) and isinstance(e.func, ast.Attribute) and e.func.attr == 'drop' and isinstance(e.func.value, ast.Name) \
+            and e.args and isinstance(e.args[0], ast.Attribute) and e.args[0].attr == 'index':
+        # T.drop(<other frame>.index): rows are removed by LABEL - with repeated labels that is not "the rows of the
+        # other frame"
+        return e.func.value.id, 'present', '<row labels of %s>' % U(e.args[0].value), idx_false
     if isinstance(e, ast.Call) and isinstance(e.func, ast.Attribute) and e.func.attr == 'dropna' and isinstance(e.func.value, ast.Name):
         # rows without a missing value in the `subset` columns; without subset: in ANY column
         kws = {k.arg: k.value for k in e.keywords}
